@@ -40,8 +40,9 @@ Definition obs_eqb (a b : obs) : bool :=
   | PObs r1 n1, PObs r2 n2 => (r1 =? r2) && (n1 =? n2)
   | GObs r1 n1 p1 y1 u1 q1 g1 b1, GObs r2 n2 p2 y2 u2 q2 g2 b2 =>
       (r1 =? r2) && (n1 =? n2) && snap_eqb p1 p2 && snap_eqb y1 y2 && list_eqb ubi_eqb u1 u2 && (q1 =? q2)
-      && list_eqb (fun a b => (fst a =? fst b) && tok_eqb (snd a) (snd b)) g1 g2
-      && list_eqb (fun a b => (fst a =? fst b) && (snd a =? snd b)) b1 b2
+      (* registry and supplies as finite maps: the store iterates by denomination, the model's list is in creation order *)
+      && forallb (fun e => otok_eqb (aget (fst e) g2) (Some (snd e))) g1 && forallb (fun e => otok_eqb (aget (fst e) g1) (Some (snd e))) g2
+      && forallb (fun e => oz_eqb (aget (fst e) b2) (Some (snd e))) b1 && forallb (fun e => oz_eqb (aget (fst e) b1) (Some (snd e))) b2
   | _, _ => false
   end.
 
